@@ -225,6 +225,10 @@ func indexIngest(repo Repo, index *types.Index, conf config.Config, locked bool)
 				referrerResponse[refSubj.String()] = newDesc
 				mod = true
 			}
+			// a regenerated response cannot be stored in a read-only store, leave the fallback tag in place
+			if !valid && *conf.Storage.ReadOnly {
+				continue
+			}
 			// if the response cannot be quickly converted, save for later
 			if !valid {
 				for refSubj := range refResp {
